@@ -43,8 +43,83 @@ static int verif_stub_read_dns_withq(int dns_fd, int tun_fd, char *buf, int bufl
 static void verif_stub_send_ping(int fd);
 static void verif_stub_send_chunk(int fd);
 #endif
+#ifdef STUB_HANDSHAKE
+/* handshake parsers: the reply reader and the query senders are replaced by their contracts */
+#define HWSEL_int verif_real_handshake_waitdns(int
+#define HWSEL_dns_fd verif_stub_handshake_waitdns(dns_fd
+#define handshake_waitdns(a, b, c, d, e, f) HWSEL_##a, b, c, d, e, f)
+#define SLSEL_int verif_real_send_login(int
+#define SLSEL_dns_fd verif_stub_send_login(dns_fd
+#define SLSEL_fd verif_stub_send_login(fd
+#define send_login(a, b, c) SLSEL_##a, b, c)
+#define SVSEL_int verif_real_send_version(int
+#define SVSEL_dns_fd verif_stub_send_version(dns_fd
+#define SVSEL_fd verif_stub_send_version(fd
+#define send_version(a, b) SVSEL_##a, b)
+#define HQSEL_int verif_real_send_handshake_query(int
+#define HQSEL_dns_fd verif_stub_send_handshake_query(dns_fd
+#define HQSEL_fd verif_stub_send_handshake_query(fd
+#define send_handshake_query(a, b) HQSEL_##a, b)
+#define UTSEL_int verif_real_send_upenctest(int
+#define UTSEL_dns_fd verif_stub_send_upenctest(dns_fd
+#define UTSEL_fd verif_stub_send_upenctest(fd
+#define send_upenctest(a, b) UTSEL_##a, b)
+#define DTSEL_int verif_real_send_downenctest(int
+#define DTSEL_dns_fd verif_stub_send_downenctest(dns_fd
+#define DTSEL_fd verif_stub_send_downenctest(fd
+#define send_downenctest(a, b, c) DTSEL_##a, b, c)
+#define LSSEL_int verif_real_send_lazy_switch(int
+#define LSSEL_dns_fd verif_stub_send_lazy_switch(dns_fd
+#define LSSEL_fd verif_stub_send_lazy_switch(fd
+#define send_lazy_switch(a) LSSEL_##a)
+#define SFSEL_int verif_real_send_set_downstream_fragsize(int
+#define SFSEL_dns_fd verif_stub_send_set_downstream_fragsize(dns_fd
+#define SFSEL_fd verif_stub_send_set_downstream_fragsize(fd
+#define send_set_downstream_fragsize(a, b) SFSEL_##a, b)
+#define FPSEL_int verif_real_send_fragsize_probe(int
+#define FPSEL_dns_fd verif_stub_send_fragsize_probe(dns_fd
+#define FPSEL_fd verif_stub_send_fragsize_probe(fd
+#define send_fragsize_probe(a, b) FPSEL_##a, b)
+/* the one sscanf call of client.c has six arguments; the two declarations in <stdio.h> have three */
+#define SSC_PICK(_1, _2, _3, _4, _5, _6, NAME, ...) NAME
+#define sscanf(...) SSC_PICK(__VA_ARGS__, SSC_CALL, SSC_X5, SSC_X4, SSC_DECL, SSC_X2, SSC_X1)(__VA_ARGS__)
+#define SSC_CALL(str, fmt, a, b, c, d) verif_sscanf4(str, a, b, c, d)
+#define SSC_DECL(a, b, c) verif_sscanf_decl(a, b, c)
+#define errx verif_errx
+#define select verif_select
+#define recv verif_recv
+#define sendto verif_sendto_c
+#define fflush verif_fflush
+static void verif_stub_send_login(int fd, char *login, int len);
+static void verif_stub_send_version(int fd, unsigned version);
+static void verif_stub_send_handshake_query(int fd, char *prefix);
+static void verif_stub_send_upenctest(int fd, const char *s);
+static void verif_stub_send_downenctest(int fd, char downenc, int variant);
+static void verif_stub_send_lazy_switch(int fd);
+static void verif_stub_send_set_downstream_fragsize(int fd, int fragsize);
+static void verif_stub_send_fragsize_probe(int fd, int fragsize);
+static int verif_stub_handshake_waitdns(int dns_fd, char *buf, int buflen, char c1, char c2, int timeout);
+static int verif_sscanf4(const char *str, char *a, char *b, int *c, int *d);
+#endif
 #include VERIF_SHRUNK_TU
 #include VERIF_SHRUNK_MACROS
+#ifdef STUB_HANDSHAKE
+#undef handshake_waitdns
+#undef send_login
+#undef send_version
+#undef send_handshake_query
+#undef send_upenctest
+#undef send_downenctest
+#undef send_lazy_switch
+#undef send_set_downstream_fragsize
+#undef send_fragsize_probe
+#undef sscanf
+#undef errx
+#undef select
+#undef recv
+#undef sendto
+#undef fflush
+#endif
 #undef memcpy
 #undef strlen
 #undef time
@@ -259,6 +334,161 @@ void h_tunnel_dns(void)
 		__CPROVER_assert(ack || out_same, "only an ack for the fragment last sent moves the upstream packet");
 		__CPROVER_assert(!ack || (out_off0 + out_sent0 >= out_len0 ? (outpkt.len == 0 && outpkt.offset == 0 && outpkt.sentlen == 0) : (outpkt.offset == out_off0 + out_sent0 && outpkt.fragment == (char)(out_frag0 + 1) && outpkt.len == out_len0 && g_chunks == 1)), "a matching ack advances by exactly the bytes sent (next fragment sent) or completes the packet");
 	}
+	VERIF_REACH();
+}
+#endif
+
+/* ---- handshake parsers (C06: every reply-derived index stays inside its buffer; C13: what reaches tun_setip /
+ * tun_setmtu; C19: which challenge value each login computation uses) -----------------------------------------
+ * handshake_waitdns is replaced by its contract: the reply buffer is filled with arbitrary bytes and the result is
+ * -3..buflen (read_dns_withq returns at most buflen: groups cli_namedec / dns_decode_answer_*). */
+#ifdef STUB_HANDSHAKE
+static int g_sends, g_hw_calls, g_hw_buflen, g_hw_ret; static char g_hw_c1;
+static void verif_stub_send_login(int fd, char *login, int len) { __CPROVER_assert(len == 16 && __CPROVER_r_ok(login, 16), "send_login gets the 16-byte response"); g_sends++; }
+static void verif_stub_send_version(int fd, unsigned version) { g_sends++; }
+static void verif_stub_send_handshake_query(int fd, char *prefix) { __CPROVER_assert(__CPROVER_r_ok(prefix, 1), "send_handshake_query: prefix readable"); g_sends++; }
+static void verif_stub_send_upenctest(int fd, const char *s) { g_sends++; }
+static void verif_stub_send_downenctest(int fd, char downenc, int variant) { g_sends++; }
+static void verif_stub_send_lazy_switch(int fd) { g_sends++; }
+static void verif_stub_send_set_downstream_fragsize(int fd, int fragsize) { g_sends++; }
+static void verif_stub_send_fragsize_probe(int fd, int fragsize) { g_sends++; }
+static int verif_stub_handshake_waitdns(int dns_fd, char *buf, int buflen, char c1, char c2, int timeout)
+{
+	int r = nondet_int();
+	__CPROVER_assert(buflen >= 0 && __CPROVER_w_ok(buf, buflen), "handshake_waitdns: reply buffer writable for buflen bytes");
+	/* the callers' buffers are uninitialised locals, i.e. arbitrary bytes already: what the reply put there is arbitrary */
+	__CPROVER_assume(r >= -3 && r <= buflen);
+	g_hw_calls++; g_hw_buflen = buflen; g_hw_ret = r; g_hw_c1 = c1;
+	return r;
+}
+/* sscanf(str, "%64[^-]-%64[^-]-%d-%d", a, b, c, d): reads the NUL-terminated string str; stores at most 64 characters + NUL
+ * into a and b, two ints; returns the number of fields converted */
+static int g_scan_calls;
+static int verif_sscanf4(const char *str, char *a, char *b, int *c, int *d)
+{
+	size_t off = __CPROVER_POINTER_OFFSET(str), size = __CPROVER_OBJECT_SIZE(str);
+	/* the bytes of the reply itself are arbitrary (possibly without a NUL), so a terminator must sit at or behind the
+	 * reply's end: checked at the two places any correct idiom makes it hold for every reply - directly behind the
+	 * reply (explicit terminator, or a buffer zeroed beforehand) or in the last byte of the buffer */
+	_Bool terminated = (g_hw_ret >= 0 && off + (size_t)g_hw_ret < size && str[g_hw_ret] == 0) || ((const char *)str - off)[size - 1] == 0;
+	__CPROVER_assert(__CPROVER_r_ok(str, 1), "sscanf: input readable");
+	__CPROVER_assert(terminated, "sscanf: the input is a NUL-terminated string inside its buffer (no read of stale or foreign bytes behind the reply)");
+	__CPROVER_assert(__CPROVER_w_ok(a, 65) && __CPROVER_w_ok(b, 65), "sscanf: %64[^-] destinations hold 64 characters + NUL");
+	g_scan_calls++;
+	int r = nondet_int();
+	__CPROVER_assume(r >= 0 && r <= 4);
+	if (r >= 1) { size_t k = nondet_size_t(); __CPROVER_assume(k >= 1 && k <= 64); __CPROVER_havoc_slice(a, 65); a[k] = 0; }
+	if (r >= 2) { size_t k = nondet_size_t(); __CPROVER_assume(k >= 1 && k <= 64); __CPROVER_havoc_slice(b, 65); b[k] = 0; }
+	if (r >= 3) *c = nondet_int();
+	if (r >= 4) *d = nondet_int();
+	return r;
+}
+void verif_errx(int code, const char *fmt, ...) { __CPROVER_assume(0); }
+int verif_fflush(FILE *f) { return 0; }
+int verif_select(int n, fd_set *r, fd_set *w, fd_set *e, struct timeval *tv) { return nondet_int(); }
+static int g_recv_ret;
+ssize_t verif_recv(int fd, void *buf, size_t len, int flags)
+{
+	__CPROVER_assert(__CPROVER_w_ok(buf, len), "recv: buffer writable for len bytes");
+	g_recv_ret = nondet_int();
+	__CPROVER_assume(g_recv_ret >= -1 && (size_t)(g_recv_ret < 0 ? 0 : g_recv_ret) <= len);
+	return g_recv_ret;
+}
+static int g_sendto_calls; static size_t g_sendto_len; static unsigned char g_sendto_b3;
+ssize_t verif_sendto_c(int fd, const void *buf, size_t len, int flags, const struct sockaddr *to, socklen_t tolen)
+{
+	__CPROVER_assert(len == 0 || __CPROVER_r_ok(buf, len), "sendto: buffer readable for len bytes");
+	g_sendto_calls++; g_sendto_len = len; g_sendto_b3 = len > 3 ? ((const unsigned char *)buf)[3] : 0;
+	return (ssize_t)len;
+}
+/* other translation units */
+static int g_lc_calls, g_lc_seed[4]; static const char *g_lc_pass[4];
+void login_calculate(char *buf, int buflen, const char *pass, int seed)
+{
+	__CPROVER_assert(buflen >= 16 && __CPROVER_w_ok(buf, 16), "login_calculate: 16-byte output");
+	if (g_lc_calls < 4) { g_lc_seed[g_lc_calls] = seed; g_lc_pass[g_lc_calls] = pass; }
+	g_lc_calls++;
+}
+int b32_5to8(int in) { return "abcdefghijklmnopqrstuvwxyz012345"[in & 31]; }
+int b32_8to5(int in) { int r = nondet_int(); __CPROVER_assume(r >= 0 && r < 32); return r; }
+static int g_setip_calls, g_setip_ret, g_setip_bits, g_setmtu_calls, g_setmtu_ret; static unsigned g_setmtu_arg; static _Bool g_setip_terminated;
+int tun_setip(const char *ip, const char *other_ip, int netbits)
+{
+	size_t i; _Bool t1 = 0, t2 = 0;
+	/* precondition used by group tun_setip (C13): both strings NUL-terminated within 65 bytes */
+	for (i = 0; i < 65; i++) { if (ip[i] == 0) { t1 = 1; break; } }
+	for (i = 0; i < 65; i++) { if (other_ip[i] == 0) { t2 = 1; break; } }
+	g_setip_terminated = t1 && t2;
+	__CPROVER_assert(g_setip_terminated, "tun_setip gets two strings that are NUL-terminated within their 65-byte buffers");
+	g_setip_calls++; g_setip_bits = netbits;
+	g_setip_ret = nondet_int();
+	return g_setip_ret;
+}
+int tun_setmtu(const unsigned mtu) { g_setmtu_calls++; g_setmtu_arg = mtu; g_setmtu_ret = nondet_int(); return g_setmtu_ret; }
+char *format_addr(struct sockaddr_storage *a, int l) { static char b[8]; return b; }
+const unsigned char raw_header[RAW_HDR_LEN] = { 0x10, 0xd1, 0x9e, 0x00 };     /* common.c; checked against the source by the extraction rules of the server TU */
+
+static void hs_reset(void)
+{
+	running = 1;
+	g_sends = g_hw_calls = g_scan_calls = g_lc_calls = g_setip_calls = g_setmtu_calls = g_sendto_calls = 0;
+	userid = (char)nondet_int();
+	lazymode = nondet_int(); selecttimeout = nondet_int();
+	downenc = (char)nondet_int();
+}
+void h_hs_login(void)
+{
+	hs_reset();
+	int seed = nondet_int();
+	int r = handshake_login(8, seed);
+	__CPROVER_assert(g_lc_calls == 1 && g_lc_seed[0] == seed && g_lc_pass[0] == password, "the login response is computed from the password and exactly the challenge received (C19)");
+	__CPROVER_assert(g_setip_calls <= 1 && g_setmtu_calls <= 1, "the tunnel is configured at most once");
+	__CPROVER_assert(r == 0 ? (g_setip_calls == 1 && g_setip_ret == 0 && g_setmtu_calls == 1 && g_setmtu_ret == 0) : 1, "login succeeds only when both configuration steps succeeded");
+	__CPROVER_assert(g_setip_calls == 0 || g_scan_calls >= 1, "addresses come from the parsed login reply only");
+	VERIF_REACH();
+}
+void h_hs_version(void)
+{
+	hs_reset();
+	int seed = 0;
+	int r = handshake_version(8, &seed);
+	__CPROVER_assert(r == 0 || r == 1, "result 0 or 1");
+	VERIF_REACH();
+}
+void h_hs_switch(void)
+{
+	hs_reset();
+	int bits = nondet_int();
+	if (nondet_bool()) handshake_switch_codec(8, bits);
+	else if (nondet_bool()) handshake_switch_downenc(8);
+	else if (nondet_bool()) handshake_try_lazy(8);
+	else handshake_lazyoff(8);
+	VERIF_REACH();
+}
+void h_hs_setfrag(void)
+{
+	hs_reset();
+	int fragsize = nondet_int();
+	if (nondet_bool()) handshake_set_fragsize(8, fragsize);
+	else {
+		static char in[4096];
+		int read = nondet_int(), prop = nondet_int(), max = nondet_int();
+		__CPROVER_assume(read >= -3 && read <= 4096);        /* handshake_waitdns result for a 4096-byte buffer */
+		__CPROVER_assume(prop >= 0 && prop <= 2047);         /* handshake_autoprobe_fragsize proposes sizes in 0..2047 */
+		fragsize_check(in, read, prop, &max);
+	}
+	VERIF_REACH();
+}
+void h_hs_raw(void)
+{
+	hs_reset();
+	int seed = nondet_int();
+	int r = handshake_raw_udp(8, seed);
+	/* C19: raw login sends the response for challenge+1 and accepts the server's proof for challenge-1 */
+	__CPROVER_assert(g_sendto_calls == 0 || (g_lc_calls >= 1 && g_lc_seed[0] == (int)((unsigned)seed + 1u) && g_lc_pass[0] == password), "the raw login message carries the response for challenge + 1");
+	__CPROVER_assert(g_sendto_calls == 0 || (g_sendto_len == 20 && (g_sendto_b3 & 0xF0) == RAW_HDR_CMD_LOGIN), "it is a 20-byte raw login frame");
+	__CPROVER_assert(r == 0 || (g_lc_calls >= 2 && g_recv_ret >= 20), "raw mode is entered only after a reply of at least 20 bytes was compared with the response for challenge - 1");
+	{ int k; for (k = 1; k < 4 && k < g_lc_calls; k++) __CPROVER_assert(g_lc_seed[k] == (int)((unsigned)seed + 1u) || g_lc_seed[k] == (int)((unsigned)seed - 1u), "every login computation uses challenge + 1 (towards the server) or challenge - 1 (back)"); }
 	VERIF_REACH();
 }
 #endif
